@@ -296,8 +296,9 @@ func (dm *DMap) putOnCluster(e *env) error {
 		return err
 	}
 	defer f.Unlock()
+	defer verifhook.At("put.unlocked", dm.name, e.key)
 	e.fragment = f
-	verifhook.At("put.locked", dm.name, e.key)
+	verifhook.At("put.locked", dm.name, e.key, e.timestamp, e.putConfig.HasNX, e.putConfig.HasXX, e.putConfig.OnlyUpdateTTL)
 
 	if err = dm.checkPutConditions(e); err != nil {
 		return err
